@@ -14,13 +14,19 @@ CLAIM = dict(
           "contexts cover (exact arithmetic, n < 2^24); create_array over a raw (pointer, shape, dim) triple is the original array. "
           "Tied to the C++ by a host simulation performing exactly the kernel's steps with the real functions "
           "(get_function_composition, get_function_operands, device_array / create_array from raw triples, create_mutable_array, "
-          "functional::apply, assign_result with simulated ids) for 9 view compositions of depth 1..3 under generated schedules; "
+          "functional::apply, assign_result with simulated ids) for 26 view compositions of depth 1..3 under generated schedules - "
+          "among them parameterised unary ufuncs (leaky_relu / hardtanh / hardshrink / softshrink with NON-default run-time "
+          "parameters taken from the case line, as single node and as inner / outer node of depth-2/3 compositions), a reduction with "
+          "run-time axis and initial value, and expand_dims / reshape / broadcast_to / tile raising operand ranks 1..4 to OUTPUT "
+          "ranks 5..8 (the capacity of the kernel's shape vector); "
           "compared: final buffer, per-thread write set, guard cells behind the buffer, host view. "
           "PARTIAL: device runtimes are absent from the sandbox - real device memory models, warp scheduling, vendor launch "
           "code (the geometry arithmetic sits in headers that need the CUDA/HIP/SYCL/OpenCL toolkits) are neither modelled nor "
           "corresponded. That result == host evaluation is C14's extraction theorem; its finding (non-leaf operand at position >= 1) is inherited."),
     ref="5.13", technique="Coq proof (invariant over an arbitrary schedule) + differential correspondence of a host simulation", extra="")
-RULE = ("9 fixed view compositions (depth 1..3) x operand shapes dim 1..4 x operand styles (device_array DIM=0, fixed DIM, "
+RULE = ("26 fixed view compositions (depth 1..3; 11 with run-time attributes: activation parameters in {-1.5,-0.25,0.25,0.5,0.75,2.5,"
+        "7.5,10}, clamp pairs, shrink thresholds, reduction axis/initial, on data with negatives and out-of-clamp values; 6 "
+        "rank-raising views with output rank 5..8 and distinct extents) x operand shapes dim 1..4 x operand styles (device_array DIM=0, fixed DIM, "
         "create_array views) x block sizes 1..33 x grids exact..2x x orders (ascending, descending, interleaved, seeded "
         "permutations, with duplicates, incomplete); rebuild round trips on all shapes dim 1..4 extents 1..3; compute_offset box. "
         "non-trivial = kern case with output size >= 4; distinct = distinct case lines")
@@ -37,7 +43,9 @@ SENT = -999
 
 
 def drivers(tier):
-    return {"c13": [("c13.cpp", "ndebug", ()), ("c13.cpp", "asan", ("-DVD_LIGHT",))]}
+    # part 2 = second build of the same source (views with run-time attributes, outputs of rank 5..8); a different
+    # flavour so that the binary cache keeps both; 3 compile jobs
+    return {"c13": [("c13.cpp", "ndebug", ()), ("c13.cpp", "asan", ("-DVD_LIGHT",)), ("c13.cpp", "debug", ("-DC13_PART=2",))]}
 
 
 # ---------------------------------------------------------------- tiny reference evaluator (independent of nmtools)
@@ -77,6 +85,99 @@ COMPS = {
     "mm_tr_r":    lambda a, b: matmul(a, transpose(b)),          # outside wf
     "sub_tr_l":   lambda a, b: ew(lambda x, y: x - y, transpose(a), b),   # binary ufunc over a non-leaf at position 0 (wf)
 }
+# ---- part 2: views whose attributes carry run-time values (parameters from the CASE LINE, in quarters), rank-raising views
+def lrelu(a, s): return (a[0], [x if x >= 0 else s * x for x in a[1]])
+def htanh(a, lo, hi): return (a[0], [lo if x < lo else (hi if x > hi else x) for x in a[1]])
+def hshrink(a, l): return (a[0], [0 if -l <= x <= l else x for x in a[1]])
+def sshrink(a, l): return (a[0], [x - l if x > l else (x + l if x < -l else 0) for x in a[1]])
+def expand_dims(a, axes):
+    n = len(a[0]) + len(axes); it = iter(a[0])
+    return (tuple(1 if k in axes else next(it) for k in range(n)), list(a[1]))
+def reshape(a, sh): assert size(sh) == size(a[0]); return (tuple(sh), list(a[1]))
+def broadcast_to(a, sh):
+    pad = (1,) * (len(sh) - len(a[0])) + tuple(a[0])
+    return gen(sh, lambda i: a[1][ravel(tuple(0 if e == 1 else x for x, e in zip(i, pad)), pad)])
+def tile(a, reps):
+    n = max(len(reps), len(a[0])); pad = (1,) * (n - len(a[0])) + tuple(a[0]); r = (1,) * (n - len(reps)) + tuple(reps)
+    return gen(tuple(x * y for x, y in zip(pad, r)), lambda i: a[1][ravel(tuple(x % e for x, e in zip(i, pad)), pad)])
+def Q(p): return p / 4.0
+def ints(a): assert all(float(x) == int(x) for x in a[1]); return (a[0], [int(x) for x in a[1]])
+COMPS2 = {   # comp -> (reference(a, b, params), parameter kind)
+    "lrelu":         lambda a, b, P: ints(lrelu(a, Q(P[0]))),
+    "htanh":         lambda a, b, P: ints(htanh(a, Q(P[0]), Q(P[1]))),
+    "hshrink":       lambda a, b, P: ints(hshrink(a, Q(P[0]))),
+    "sshrink":       lambda a, b, P: ints(sshrink(a, Q(P[0]))),
+    "lrelu_add":     lambda a, b, P: ints(lrelu(ew(lambda x, y: x + y, a, b), Q(P[0]))),
+    "add_lrelu":     lambda a, b, P: ints(ew(lambda x, y: x + y, lrelu(a, Q(P[0])), b)),
+    "sum_htanh":     lambda a, b, P: ints(sum_axis(htanh(a, Q(P[0]), Q(P[1])), 0)),
+    "neg_tr_lrelu":  lambda a, b, P: ints(neg(transpose(lrelu(a, Q(P[0]))))),
+    "htanh_tr_add":  lambda a, b, P: ints(htanh(transpose(ew(lambda x, y: x + y, a, b)), Q(P[0]), Q(P[1]))),
+    "sshrink_lrelu": lambda a, b, P: ints(sshrink(lrelu(a, Q(P[0])), Q(P[1]))),
+    "sum_ax_init":   lambda a, b, P: (lambda r: (r[0], [x + P[1] for x in r[1]]))(sum_axis(a, P[0])),
+    "expd":          lambda a, b, P: expand_dims(a, P),
+    "neg_expd":      lambda a, b, P: neg(expand_dims(a, P)),
+    "expd_tr":       lambda a, b, P: expand_dims(transpose(a), P),
+    "reshape_hi":    lambda a, b, P: reshape(a, P),
+    "bto_hi":        lambda a, b, P: broadcast_to(a, tuple(P)),
+    "tile_hi":       lambda a, b, P: tile(a, tuple(P)),
+}
+ACT = {"lrelu": 1, "hshrink": 1, "lrelu_add": 1, "add_lrelu": 1, "neg_tr_lrelu": 1,           # slope / lambda: any quarter
+       "htanh": 2, "sum_htanh": 2, "htanh_tr_add": 2, "sshrink": 3, "sshrink_lrelu": 4}         # clamp pair / integral lambda
+
+
+def case2(rng, comp):
+    """-> (a, b, params) for a part-2 composition"""
+    def act_arr(sh): return (tuple(sh), [4 * rng.choice([-9, -6, -5, -3, -2, -1, 1, 2, 3, 5, 7, 10]) for _ in range(size(sh))])
+    def shape(lo, hi, cap=36):
+        while True:
+            sh = tuple(rng.randint(2, 5) if rng.random() < 0.8 else 1 for _ in range(rng.randint(lo, hi)))
+            if size(sh) <= cap: return sh
+    slopes = [-6, -1, 1, 2, 10, 40]
+    if comp in ACT:
+        sh = shape(2 if comp == "sum_htanh" else 1, 4)
+        a, b = act_arr(sh), act_arr(sh)
+        k = ACT[comp]
+        if k == 1: P = [rng.choice(slopes + [3, 30])]
+        elif k == 2:
+            lo = 4 * rng.choice([-12, -5, -2, 1]); P = [lo, lo + 4 * rng.choice([1, 3, 7, 15])]
+        elif k == 3: P = [4 * rng.choice([1, 2, 4, 9])]
+        else: P = [rng.choice(slopes), 4 * rng.choice([1, 2, 6])]
+        return a, b, P
+    if comp == "sum_ax_init":
+        sh = shape(2, 4); a = rand_arr(rng, sh)
+        return a, a, [rng.randrange(len(sh)), rng.choice([-7, 0, 3, 100])]
+    # rank-raising views: operand rank 1..4, output rank mostly 5..8 (the static_vector capacity of create_vector)
+    if comp in ("expd", "neg_expd", "expd_tr"):
+        sh = shape(1, 4); k = rng.randint(max(1, 5 - len(sh)), 8 - len(sh)) if rng.random() < 0.85 else 1
+        return rand_arr(rng, sh), rand_arr(rng, sh), sorted(rng.sample(range(len(sh) + k), k))
+    if comp == "reshape_hi":
+        sh = rng.choice([(2, 3, 4), (6, 5), (24,), (2, 3, 5), (4, 3, 2, 2), (30,), (2, 2, 7)])
+        f = []
+        for e in sh:
+            for q in (2, 3, 5, 7):
+                while e % q == 0 and e > 1: f.append(q); e //= q
+        rng.shuffle(f)
+        while len(f) > 2 and rng.random() < 0.4: x = f.pop(); f[rng.randrange(len(f))] *= x
+        n = rng.randint(max(5, len(f)), 8)
+        while len(f) < n: f.insert(rng.randint(0, len(f)), 1)
+        return rand_arr(rng, sh), rand_arr(rng, sh), f
+    if comp == "bto_hi":
+        sh = tuple(rng.choice([1, 1, 2, 3]) for _ in range(rng.randint(1, 4)))
+        tgt = [e if e > 1 else rng.choice([1, 2, 3]) for e in sh]
+        n = rng.randint(5, 8)
+        while len(tgt) < n: tgt.insert(0, rng.choice([1, 2, 2, 3]))
+        while size(tgt) > 64: tgt[rng.randrange(len(tgt))] = 1
+        tgt[len(tgt) - len(sh):] = [t if s == 1 else s for s, t in zip(sh, tgt[len(tgt) - len(sh):])]
+        return rand_arr(rng, sh), rand_arr(rng, sh), tgt
+    if comp == "tile_hi":
+        sh = tuple(rng.randint(1, 3) for _ in range(rng.randint(1, 4)))
+        while size(sh) > 12: sh = sh[1:]
+        reps = [rng.choice([1, 1, 2, 3]) for _ in range(rng.randint(5, 8))]
+        while size(reps) * size(sh) > 72: reps[rng.randrange(len(reps))] = 1
+        return rand_arr(rng, sh), rand_arr(rng, sh), reps
+    raise KeyError(comp)
+
+
 NONWF = {"mm_tr_r": "extraction-nonleaf-operand-at-position>=1"}
 
 
@@ -147,6 +248,19 @@ def gen_cases(rng, tier):
                 if style == "cudaN" and len(r[0]) > 2: style = "cuda"
                 add("schedules-" + kind if comp not in NONWF else "inherited-findings",
                     "kern S:%s S:%s %s %s %s I:%d %s %s" % (comp, style, A(a), A(b), A(r), bsz, L([t for t, _ in th]), L([b_ for _, b_ in th])))
+    # part 2: run-time attributes and high-rank outputs, same schedule sweeps
+    per2 = 2 if tier == "quick" else 12
+    for comp in COMPS2:
+        for kind in KINDS:
+            for _ in range(per2):
+                a, b, P = case2(rng, comp)
+                r = COMPS2[comp](a, b, P)
+                n = size(r[0])
+                bsz, th = schedule(rng, n, kind)
+                if not th: continue
+                stream = ("attributes-" if comp in ACT or comp == "sum_ax_init" else "rank-%d-" % len(r[0]) if len(r[0]) >= 5 else "rank-low-") + kind
+                add(stream, "kern S:%s S:%s %s %s %s I:%d %s %s %s" % (comp, rng.choice(["cuda", "ocl"]), A(a), A(b), A(r), bsz,
+                                                                       L([t for t, _ in th]), L([b_ for _, b_ in th]), L(P)))
     # boundary: size exactly a multiple of the block, block larger than the output, block size 1
     for comp in ("add", "tr", "neg_tr_add"):
         for n, bsz in ((4, 4), (4, 2), (6, 33), (6, 1), (9, 3), (1, 1), (1, 7)):
